@@ -620,7 +620,27 @@ fn check_app(c: &C03App) -> Outcome {
         cost_sum += path[k].get("access_cost").and_then(|x| x.as_f64()).unwrap_or(0.0)
             + path[k].get("traversal_cost").and_then(|x| x.as_f64()).unwrap_or(0.0);
     }
-    // the summary is the state after the last edge
+    // the summary is the state after the last edge: first against the last edge's own reported
+    // state (same response, same units: equal up to float formatting), then against the reference
+    if let (Some(ts), Some(last)) = (route.get("traversal_summary"), path.last()) {
+        let rs: Vec<f64> = last
+            .get("result_state")
+            .and_then(|r| r.as_array())
+            .map(|a| a.iter().map(|x| x.as_f64().unwrap_or(f64::NAN)).collect())
+            .unwrap_or_default();
+        for (name, slot) in [(DIST, Some(di)), (TIME, if has_time { Some(ti) } else { None })] {
+            if let (Some(slot), Some(v)) = (slot, ts.get(name).and_then(|x| x.as_f64())) {
+                let want = rs.get(slot).copied().unwrap_or(f64::NAN);
+                if !((v - want).abs() <= 1e-9 * want.abs() + 1e-300) {
+                    o.fail(
+                        "C03/app/summary-differs-from-the-last-edge-state-of-the-same-response",
+                        json!({"ctx": ctx0, "feature": name, "summary": v, "last_edge_state": want}),
+                    );
+                    return o;
+                }
+            }
+        }
+    }
     if let Some(ts) = route.get("traversal_summary") {
         let gd = ts.get(DIST).and_then(|x| x.as_f64());
         let gt = ts.get(TIME).and_then(|x| x.as_f64());
